@@ -18,7 +18,9 @@
 package client
 
 import (
+	"bytes"
 	"context"
+	"crypto/sha256"
 	"encoding/base64"
 	"fmt"
 	"net/http"
@@ -27,6 +29,7 @@ import (
 	ct "github.com/google/certificate-transparency-go"
 	"github.com/google/certificate-transparency-go/jsonclient"
 	"github.com/google/certificate-transparency-go/tls"
+	"github.com/google/certificate-transparency-go/x509"
 )
 
 // LogClient represents a client for a given CT Log instance
@@ -96,6 +99,20 @@ func (c *LogClient) addChainWithRetry(ctx context.Context, ctype ct.LogEntryType
 
 	var logID ct.LogID
 	copy(logID.KeyID[:], resp.ID)
+	if want, ok := c.configuredLogID(); ok {
+		// A client that knows the log's key only returns SCTs that name
+		// that log: an ID in the response has to be the hash of the key; if
+		// the response has none, the SCT (whose signature is verified
+		// below) is attributed to the configured log.
+		if len(resp.ID) > 0 && !bytes.Equal(resp.ID, want[:]) {
+			return nil, RspError{
+				Err:        fmt.Errorf("log ID in response (%x) is not the hash of the log's public key (%x)", resp.ID, want),
+				StatusCode: httpRsp.StatusCode,
+				Body:       body,
+			}
+		}
+		logID.KeyID = want
+	}
 	sct := &ct.SignedCertificateTimestamp{
 		SCTVersion: resp.SCTVersion,
 		LogID:      logID,
@@ -107,6 +124,20 @@ func (c *LogClient) addChainWithRetry(ctx context.Context, ctype ct.LogEntryType
 		return nil, RspError{Err: err, StatusCode: httpRsp.StatusCode, Body: body}
 	}
 	return sct, nil
+}
+
+// configuredLogID returns the log ID (RFC 6962 section 3.2: the SHA-256 hash
+// of the log's public key) that follows from the key the client was
+// configured with, if any.
+func (c *LogClient) configuredLogID() ([sha256.Size]byte, bool) {
+	if c.Verifier == nil {
+		return [sha256.Size]byte{}, false
+	}
+	keyDER, err := x509.MarshalPKIXPublicKey(c.Verifier.PubKey)
+	if err != nil {
+		return [sha256.Size]byte{}, false
+	}
+	return sha256.Sum256(keyDER), true
 }
 
 // AddChain adds the (DER represented) X509 |chain| to the log.
